@@ -87,16 +87,21 @@ mutual
     | .cons _ body rest => sitesBlock body ++ sitesHandlers rest
 end
 
+/-- the value a symbolic value stands for in a concrete environment (a site that raised has no
+    value: never asked for, see `symStmt`) -/
+def SymVal.denote {V : Type} (env : Env V) : SymVal → V
+  | .data => env.data
+  | .none => env.noneV
+  | .site n =>
+    match env.site n with
+    | .val v => v
+    | .falsy v => v
+    | .raises _ => env.noneV
+
 /-- what a symbolic result means in a concrete environment -/
 def interp {V : Type} (env : Env V) : SymRes → Res V
   | .cont => .cont
-  | .ret .data => .ret env.data
-  | .ret .none => .ret env.noneV
-  | .ret (.site n) =>
-    (match env.site n with
-     | .val v => .ret v
-     | .falsy v => .ret v
-     | .raises e => .raised e)
+  | .ret v => .ret (v.denote env)
   | .raised e => .raised e
 
 end Adaptix.MiniPy
